@@ -467,7 +467,8 @@ def compare_and_round(ns, ctx, rnd, v1, v2, c1, c2):
         except Exception:
             continue
         d = float(ax.denote(o))
-        for k in (math.floor(abs(d)) + rnd.choice([0.5, 0.25, 0.1]), rnd.choice([0.5, 0.25, 1.5, 7.5, 90.5]), float(int(abs(d)) + 1),
+        for k in (abs(d), int(abs(d)) if abs(d) == int(abs(d)) and d else abs(d),
+                  math.floor(abs(d)) + rnd.choice([0.5, 0.25, 0.1]), rnd.choice([0.5, 0.25, 1.5, 7.5, 90.5]), float(int(abs(d)) + 1),
                   round(rnd.uniform(0.1, 400.0), rnd.choice([0, 1, 3]))):
             if k <= 0:
                 continue
